@@ -98,7 +98,7 @@ fn enclosing(items: &Items) -> f64 {
 
 /// signed separation of two convex polygons: > 0 gap, < 0 penetration depth (minimum
 /// translation distance over the edge normals of both)
-fn poly_sep(p: &[[f64; 2]], q: &[[f64; 2]]) -> f64 {
+pub fn poly_sep(p: &[[f64; 2]], q: &[[f64; 2]]) -> f64 {
     let mut best = std::f64::NEG_INFINITY;
     for poly in [p, q].iter() {
         let n = poly.len();
